@@ -1,3 +1,6 @@
 import XzVerif.Props.C06
 #print axioms Props.C06.C06_body_roundtrip
 #print axioms Props.C06.C06_properties_byte
+#print axioms Props.C06.C06_stream_roundtrip_marker
+#print axioms Props.C06.C06_stream_roundtrip_size
+#print axioms Props.C06.C06_stream_roundtrip_size_and_marker
